@@ -17,24 +17,16 @@ Proof. unfold src_cd_mult, cd_bin. cbn [fst snd]. zb. Qed.
 (* the ZeroDivisionError branches the translation of // introduces are dead behind `assert y[1] > 0` and max(y[0], 1) *)
 Lemma src_cd_div_eq M x0 x1 y0 y1 : src_cd_div (x0, x1) (y0, y1) = of_cres (cd_bin M Div x0 x1 y0 y1).
 Proof.
-  unfold src_cd_div, cd_bin, zpair_eqb, pair_eqb. cbn [fst snd].
-  destruct ((y0 =? 0) && (y1 =? 0)); [reflexivity|].
-  destruct (y1 >? 0) eqn:E1; cbn [negb]; [|reflexivity].
-  destruct (y1 =? 0) eqn:E2; [lia|].
-  destruct (Z.max y0 1 =? 0) eqn:E3; [lia|]. reflexivity.
+  unfold src_cd_div, cd_bin, zpair_eqb, pair_eqb. cbn [fst snd]. zb.
 Qed.
 Lemma src_cd_mod_eq M x0 x1 y0 y1 : src_cd_mod (x0, x1) (y0, y1) = of_cres (cd_bin M Mod x0 x1 y0 y1).
 Proof.
-  unfold src_cd_mod, cd_bin, zpair_eqb, pair_eqb. cbn [fst snd].
-  destruct ((y0 =? 0) && (y1 =? 0)); [reflexivity|].
-  destruct (y1 >? 0); cbn [negb]; [|reflexivity].
-  destruct (x1 <? y0); reflexivity.
+  unfold src_cd_mod, cd_bin, zpair_eqb, pair_eqb. cbn [fst snd]. zb.
 Qed.
 
 Lemma src_cd_not_eq x0 x1 : src_cd_not (x0, x1) = of_cres (cd_not x0 x1).
 Proof.
-  unfold src_cd_not, cd_not, zpair_eqb, pair_eqb. cbn [fst snd].
-  destruct (x0 >? 0); [reflexivity|]. destruct ((x0 =? 0) && (x1 =? 0)); reflexivity.
+  unfold src_cd_not, cd_not, zpair_eqb, pair_eqb. cbn [fst snd]. zb.
 Qed.
 
 Lemma src_cd_gte_eq x0 x1 y0 y1 : src_cd_gte (x0, x1) (y0, y1) = of_cres (cd_cmp CGe x0 x1 y0 y1).
